@@ -23,6 +23,9 @@ def main():
     params = "--params" in args
     noise = "--noise" in args          # also insert a no-op call in front of every statement
     norename = "--no-rename" in args
+    invert = "--invert-ifs" in args    # `if c {A} else {B}` -> `if !(c) {B} else {A}` (innermost ifs only; exclusive with the other modes)
+    if invert:
+        norename, noise = True, False
     branchy = 0                         # --branchy N: every Nth inserted statement is a guarded diagnostic print instead
     if "--branchy" in args:
         branchy = int(args[args.index("--branchy") + 1])
@@ -69,6 +72,19 @@ def main():
     nnoise = 0
     for fpath in sorted(glob.glob(os.path.join(rdir, "*.rename.json"))):
         doc = json.load(open(fpath))
+        if invert:
+            per_file = {}
+            for x in doc.get("ifs", []):
+                per_file.setdefault(x["file"], []).append(x)
+            for fl, xs in per_file.items():
+                for x in xs:
+                    inner = any(y is not x and x["e"][0] <= y["e"][0] and y["e"][1] <= x["e"][1] for y in xs)
+                    key = (fl, x["e"][0], "if")
+                    if inner or key in seen:
+                        continue
+                    seen.add(key)
+                    nnoise += 1
+                    edits.setdefault(fl, []).append(("if", x))
         if noise:
             for s in doc.get("stmts", []):
                 key = (s["file"], s["lo"], "noise")
@@ -113,6 +129,14 @@ def main():
             j += 1
         raw_of.append(len(data))
         # at equal offsets the inserted statement (length 0) must end up in front of a renamed token
+        if es and es[0][0] == "if":
+            for _, x in sorted(es, key=lambda z: z[1]["e"][0], reverse=True):
+                sl = lambda ab: data[raw_of[ab[0]]:raw_of[ab[1]]]
+                new = b"if !(" + sl(x["c"]) + b") " + sl(x["l"]) + b" else " + sl(x["t"])
+                data = data[:raw_of[x["e"][0]]] + new + data[raw_of[x["e"][1]]:]
+            open(p, "wb").write(data)
+            nfiles += 1
+            continue
         for lo, ln, old, new in sorted(es, key=lambda x: (x[0], x[1]), reverse=True):
             lo = raw_of[lo]
             assert data[lo:lo + ln].decode() == old, (rel, lo, data[lo:lo + ln], old)
